@@ -41,26 +41,31 @@ GLOBAL_CARDINALITY_STORAGE: dict[Any, Any] = dict()
 GLOBAL_COUNTS_STORAGE: dict[Any, Any] = dict()
 GLOBAL_RARE_VALUE_STORAGE: dict[str, Any] = Counter()
 GLOBAL_PRIOR_COMB_COUNTS: dict[Any, int] = Counter()
+GLOBAL_PRIOR_FEATURE_COMB_COUNTS: dict[str, Any] = dict()
 IGNORED_VALUES = set()
 HYPERLL_ERROR_BOUND = 0.02
 MAX_FEATURES_3MR = 10 ** 4
 
 
-def prior_combinations_sample(combinations: list[tuple[Any, ...]], args: Any) -> list[tuple[Any, ...]]:
+def prior_combinations_sample(combinations: list[tuple[Any, ...]], args: Any, prior_counts: Any = None) -> list[tuple[Any, ...]]:
     """Make sure only relevant subspace of combinations is selected based on prior counts"""
+
+    # Each candidate space keeps its own evaluation counts (the pairs scored per batch by default)
+    if prior_counts is None:
+        prior_counts = GLOBAL_PRIOR_COMB_COUNTS
 
     if len(combinations) == 0:
         return []
 
-    missing_combinations = set(set(combinations)).difference(GLOBAL_PRIOR_COMB_COUNTS.keys())
+    missing_combinations = set(set(combinations)).difference(prior_counts.keys())
     if len(missing_combinations) > 0:
         for combination in missing_combinations:
-            GLOBAL_PRIOR_COMB_COUNTS[combination] = 0
+            prior_counts[combination] = 0
 
-    tmp = sorted(combinations, key=GLOBAL_PRIOR_COMB_COUNTS.get, reverse=False)[:args.combination_number_upper_bound]
+    tmp = sorted(combinations, key=prior_counts.get, reverse=False)[:args.combination_number_upper_bound]
 
     for combination in tmp:
-        GLOBAL_PRIOR_COMB_COUNTS[combination] += 1
+        prior_counts[combination] += 1
 
     return tmp
 
@@ -202,7 +207,9 @@ def compute_combined_features(
         full_combination_space = list(
             itertools.combinations(all_columns, interaction_order),
         )
-    full_combination_space = prior_combinations_sample(full_combination_space, args)
+    full_combination_space = prior_combinations_sample(
+        full_combination_space, args, GLOBAL_PRIOR_FEATURE_COMB_COUNTS.setdefault(join_string, Counter()),
+    )
 
     if args.reference_model_JSON != '':
         model_combinations = extract_features_from_reference_JSON(args.reference_model_JSON, combined_features_only=True)
